@@ -19,8 +19,8 @@ def rand_expr(rng, depth, params, macros, labels):
     if macros and r < 0.6:
         name, nparams = rng.choice(macros)
         nargs = nparams + rng.choice([0, 0, 0, 1])        # extra arguments are ignored
-        if rng.random() < 0.07 and nparams > 0:
-            nargs = nparams - 1                            # a missing argument: UndefinedVariable
+        if rng.random() < 0.12 and nparams > 0:
+            nargs = rng.choice([nparams - 1, 0])           # missing argument(s): UndefinedVariable
         return ("macro", name, [rand_expr(rng, depth - 1, params, macros, labels) for _ in range(nargs)])
     if r < 0.7:
         return ("paren", rand_expr(rng, depth - 1, params, macros, labels))
@@ -39,7 +39,10 @@ def gen_case(rng):
     for i in range(k):
         # different macros deliberately reuse the same parameter names
         params = rng.sample(NAMES, rng.randrange(0, 3))
-        body = rand_expr(rng, 2, params, macros, labels)
+        # a body may also mention a variable that is NOT one of its parameters (an unbound variable,
+        # whatever an enclosing macro binds under that name): it must be reported, never captured
+        pool = params if rng.random() < 0.75 else NAMES
+        body = rand_expr(rng, 2, pool, macros, labels)
         defs.append(("defe", f"f{i}", params, body))
         macros.append((f"f{i}", len(params)))
     use = rand_expr(rng, 2, [], macros, labels)
@@ -64,7 +67,7 @@ def oracle(c, ans):
     if k in ("panic", "crash"):
         return []
     try:
-        v = G.ref_eval(c["use"], {"la": 0, "lb": 2}, c["emacros"])
+        v = G.ref_eval(c["use"], c.get("labels", {"la": 0, "lb": 2}), c["emacros"])
         want = "ok" if 0 <= v < 2 ** 256 else ("ExpressionNegative" if v < 0 else "ExpressionTooLarge")
     except G.EvalError as e:
         v = None
@@ -98,6 +101,16 @@ def check(run):
     for g in (("defe", "g", ["x"], ("macro", "f", [("var", "x")])), ("defe", "g", ["y"], ("macro", "f", [("var", "y")]))):
         use = ("macro", "g", [("num", 1)])
         cases.append(mk_case([f, g, ("op", "push32", use)], "forward", use=use, emacros={"f": (f[2], f[3]), "g": (g[2], g[3])}))
+    # no capture: a callee that binds nothing must not see the caller's bindings
+    inner = ("defe", "inner", [], G.climb([("var", "x"), "+", ("num", 1)]))
+    outer = ("defe", "outer", ["x"], G.climb([("macro", "inner", []), "*", ("num", 2)]))
+    use = ("macro", "outer", [("num", 5)])
+    cases.append(mk_case([inner, outer, ("op", "push32", use)], "no-capture", use=use, emacros={"inner": ([], inner[3]), "outer": (["x"], outer[3])}))
+    inner1 = ("defe", "inner", ["x"], G.climb([("var", "x"), "+", ("lbl", "lb")]))
+    outer1 = ("defe", "outer", ["x"], ("macro", "inner", []))
+    use = ("macro", "outer", [("lbl", "la")])
+    cases.append(mk_case([("label", "la"), ("op", "jumpdest", None), inner1, outer1, ("op", "push32", use), ("label", "lb")], "no-capture",
+                         use=use, emacros={"inner": (["x"], inner1[3]), "outer": (["x"], outer1[3])}))
     r = ("defe", "r", [], ("macro", "r", []))
     use = ("macro", "r", [])
     cases.append(mk_case([r, ("op", "push32", use)], "recursive", use=use, emacros={"r": ([], r[3])}))
